@@ -58,16 +58,20 @@ def dirMean (xs ex : List α) : α :=
   | _ => Transc.atan2 (lsum (List.zipWith (fun x e => Transc.sin x * e) xs ex))
                       (lsum (List.zipWith (fun x e => Transc.cos x * e) xs ex))
 
+/-- the body of `mean` once the weights are exponentiated (`ex = exp(weights)`; a log-weight `-inf`
+    gives the weight 0) -/
+def meanEstE (lin circ : Nat) (cols : List (List α)) (ex : List α) : List α :=
+  (if lin > 0 then (List.range lin).map (fun r => linMean (rowOf cols r) ex) else []) ++
+  (if circ > 0 then (List.range circ).map (fun r => dirMean (rowOf cols (lin + r)) ex) else [])
+
 /-- `EstimatesExtraction::mean(particles, weights)` with `weights` in the log domain:
     linear rows `particles.topRows(lin) * exp(weights)` (only `if (linear_size_ > 0)`),
     circular rows `directional_mean(particles.bottomRows(circ), exp(weights))` (only `if (circular_size_ > 0)`). -/
 def meanEst (lin circ : Nat) (cols : List (List α)) (ws : List α) : List α :=
-  let ex := ws.map Transc.exp
-  (if lin > 0 then (List.range lin).map (fun r => linMean (rowOf cols r) ex) else []) ++
-  (if circ > 0 then (List.range circ).map (fun r => dirMean (rowOf cols (lin + r)) ex) else [])
+  meanEstE lin circ cols (ws.map Transc.exp)
 
 /-- `EstimatesExtraction::mode`: the column at the first maximal log-weight -/
-def modeEst (cols : List (List α)) (ws : List α) : List α :=
+def modeEst {β : Type} (cols : List (List β)) (ws : List α) : List β :=
   cols.getD (argmaxFirst ws) []
 
 /-- the vector `values` of `EstimatesExtraction::map`:
@@ -280,6 +284,60 @@ def logStep (eps : α) (s : EE α) (log : List (List α)) (c : Call α) : List (
 def runLogFrom (eps : α) (s : EE α) (log : List (List α)) : List (Call α) → EE α × List (List α)
   | [] => (s, log)
   | c :: cs => runLogFrom eps (step eps s c).1 (logStep eps s log c) cs
+
+/-! ### Hand-over: move construction and move assignment of `EstimatesExtraction`
+
+The destination receives method, history buffer, cached weight vectors and layout of the source.  The
+source is left with method `emode`, a moved-from history buffer (window 0, empty) and its layout; its
+cached vectors are empty after move *construction* (Eigen's move constructor) and are the destination's
+previous vectors after move *assignment* (Eigen's move assignment swaps). -/
+
+def EE.afterMoveCtor (src : EE α) : EE α :=
+  { method := .emode, hist := HistBuf.movedFrom, smW := [], wmW := [], emW := [], lin := src.lin, circ := src.circ }
+
+def EE.afterMoveAssign (src dstOld : EE α) : EE α :=
+  { method := .emode, hist := HistBuf.movedFrom, smW := dstOld.smW, wmW := dstOld.wmW, emW := dstOld.emW,
+    lin := src.lin, circ := src.circ }
+
+/-- two objects; calls go to the current one -/
+structure Pool (α : Type) where
+  a : EE α
+  b : EE α
+  cur : Bool
+
+def Pool.get (p : Pool α) : Bool → EE α
+  | false => p.a
+  | true => p.b
+
+def Pool.set (p : Pool α) : Bool → EE α → Pool α
+  | false, s => { p with a := s }
+  | true, s => { p with b := s }
+
+inductive PoolCall (α : Type)
+  /-- a call of the public interface on the current object -/
+  | call (c : Call α)
+  /-- move-construct the other object from the current one -/
+  | moveCtor
+  /-- move-assign the current object to the other one -/
+  | moveAssign
+  /-- make the other object the current one -/
+  | toggle
+
+def poolStep (eps : α) (p : Pool α) : PoolCall α → Pool α × Out α
+  | .call c => let r := step eps (p.get p.cur) c; (p.set p.cur r.1, r.2)
+  | .moveCtor =>
+    let src := p.get p.cur
+    ((p.set (!p.cur) src).set p.cur src.afterMoveCtor, ⟨true, none⟩)
+  | .moveAssign =>
+    let src := p.get p.cur
+    let dstOld := p.get (!p.cur)
+    ((p.set (!p.cur) src).set p.cur (src.afterMoveAssign dstOld), ⟨true, none⟩)
+  | .toggle => ({ p with cur := !p.cur }, ⟨true, none⟩)
+
+def Pool.init (lin circ : Nat) : Pool α := ⟨EE.init lin circ, EE.init lin circ, false⟩
+
+def poolRun (eps : α) (lin circ : Nat) (cs : List (PoolCall α)) : Pool α :=
+  cs.foldl (fun p c => (poolStep eps p c).1) (Pool.init lin circ)
 
 end machine
 
